@@ -16,6 +16,7 @@ from ..impl import Converter, canon, indexes, model_of
 from . import c11
 
 PROP = "C12"
+HASHSEEDS = (1, 2)  # thorough tier: the sweep is repeated under these PYTHONHASHSEED values (sets are iterated inside the code under test)
 from curies import remap_uri_prefixes, rewire  # noqa: E402
 from curies.reconciliation import TransitiveError  # noqa: E402
 
@@ -125,6 +126,7 @@ def check(op, base_idx, pairs, ctx=None):
             if rnd == 1 and after.record_set() != before.record_set():
                 fails.append(("rewire/not-idempotent", f"{w}: {sorted(map(repr, after.record_set()))} != first result {sorted(map(repr, before.record_set()))}"))
         if ctx is not None:
+            ctx.digest((op, base_idx, pairs, rnd, sorted((r.prefix, r.uri_prefix, sorted(r.psyn), sorted(r.usyn)) for r in after.records)))
             ctx.state(hash(canon(res)))
             ctx.count("evaluations", 4 * len(before.records))
             if rnd == 0 and after.record_set() != before.record_set():
